@@ -20,14 +20,17 @@ META = {
         "exception (type name / formatted traceback and text); C05.5 the try whose TypeError handler yields -32602 "
         "must not enclose the execution of the callable's body; C05.6 validate_request, abstractly evaluated over "
         "a partition of request shapes, accepts exactly: version marker present, non-empty string method, params "
-        "absent or list/dict/tuple."),
-    "does_not_decide": "which texts the JSON backend rejects; exact message texts; client-side mapping is C06.2.",
+        "absent or list/dict/tuple; C05.8 (shared with C06.1 / C06.2 / C06.4) the client surfaces every error reply as a ProtocolError "
+        "carrying the code: check_for_errors raises ProtocolError((code, message)) for an error object, every consumer of a reply "
+        "checks it first, and _run_request returns None only for an empty reply body (an error answered to a notification is parsed too)."),
+    "does_not_decide": "which texts the JSON backend rejects; exact message texts.",
     "rules": {
         "C05.1": "site classification by handler / dominating branch; literal folding vs spec table A.1",
         "C05.2": "CFG reachability and dominance", "C05.3": "who-may-call on getattr with provenance of the receiver",
         "C05.4": "provenance terms of the message argument", "C05.5": "lexical enclosure of the call by the -32602 try",
         "C05.6": "abstract evaluation (shape interpreter) of validate_request over request shapes",
         "C05.7": "handler scan + frame of the invocation (helper inlining)",
+        "C05.8": "imported C06.1 / C06.2 / C06.4",
     },
     "assumptions": ["xmlrpc.server.resolve_dotted_attribute raises AttributeError for any segment starting with '_' "
                     "(audited from the installed stdlib source in the thorough tier)"],
@@ -436,3 +439,8 @@ def check(ck):
             good = out[0] == "return" and isinstance(out[1], shape.Opaque) and out[1].label == "Fault"
             ck.require(good, "C05.6", "%s: non-object entry %s" % (q.fn(fv), label), "rejected with a Fault",
                        "a %s entry is not rejected with a Fault: %r" % (label, out), q.loc(fv, fv.node))
+
+    # ---- C05.8 the client surfaces the error (shared with C06) ----------------------------------------------------------
+    from rules import c06
+    _common.import_rules(ck, c06, {"C06.1": "C05.8", "C06.2": "C05.8", "C06.4": "C05.8"})
+    ck.floor("C05.8", 10)
